@@ -76,6 +76,8 @@ void picture_case(const Pic& p, Stats& st) {
 	if (p.h >= 64 && rb) st.nt(fnv1a(p.rows.data(), p.rows.size(), fnv1a(p.pal.data(), 1024)));
 }
 
+__attribute__((noinline)) void scribble(uint8_t v) { volatile uint8_t buf[16384]; for (size_t i = 0; i < sizeof buf; ++i) buf[i] = uint8_t(v + i); }
+
 // A tileset picture whose standard-bitmap storage has a PARTIAL colour table (k < 256 used colours) is a valid tileset picture too: the
 // loader accepts it with a k-entry palette.  Saving it in the custom format must still give bytes of the described shape (the palette
 // section is always 256 entries = 1024 bytes; what the unused entries hold is not prescribed) that load back to the same picture.
@@ -92,6 +94,7 @@ void partial_palette_case(const Pic& p, unsigned k, bool bottomUp, Stats& st) {
 	std::vector<uint8_t> cb;
 	o = guarded([&] { cb = custom_bytes(src); }, &what);
 	V_CHECK(o == Out::Ok, "WriteCustomTileset refused a valid tileset picture with " << src.palette.size() << " palette entries: " << what);
+	{ scribble(0x5A); std::vector<uint8_t> again = custom_bytes(src); scribble(0xC3); V_CHECK(again == cb, "two saves of the same partial-palette picture differ (bytes not determined by the picture alone)"); }
 	size_t want = refgfx::encode_tileset(p.h, std::vector<std::array<uint8_t, 4>>(256), rows).size();   // every section of the described format, 256-entry palette
 	V_CHECK(cb.size() == want, "custom tileset written from a picture with " << src.palette.size() << " palette entries has " << cb.size() << " bytes; the format's sections (256-entry palette, " << p.h << " rows) add up to " << want);
 	std::vector<std::array<uint8_t, 4>> pal256(256);
